@@ -18,6 +18,7 @@ From Coq Require Import List NArith Bool Permutation.
 From AdltV Require Import Base.Res Base.MachInt Merge.Multi Merge.MultiProofs Filter.Sets Lifecycle.Model
      Convert.Select Convert.SelectProofs Convert.OrderProofs Convert.DetProofs Convert.SortInstance Exec.C14.
 From AdltV Require Dlt.Frame Dlt.Iter Dlt.Write Dlt.WriteProofs Properties.C02.
+From AdltV Require Filter.Match Convert.VerdictProofs Convert.ElabProofs.
 Import ListNotations.
 Open Scope N_scope.
 
@@ -239,6 +240,62 @@ Proof.
   vm_compute in E. inversion E; subst r. vm_compute. auto.
 Qed.
 
+(* ---- what the verdicts [fmatches] of the filter vector are (the "ECU/APID/CTID expressions, filter file" part of the
+   selection).  The filter vector is loaded by convert's three front ends -- DLF <filter> elements or dlt-convert
+   format records of the -f file, then one ECU:APID:CTID expression per --eac value (models of C11, composed in
+   Convert/Verdict.v [load_all]) -- and the filter thread asks Filter::matches (C11 model) for every message.
+   For EVERY filter so loaded, whatever the regex engine answers ([re], [valid] arbitrary): the verdict is "enabled and
+   every criterion the filter has holds for the message" (ids: literal equality of the four bytes or the expression over
+   them) -- no front end negates a filter. *)
+Theorem C14_filter_verdict_is_criteria : forall valid re srcs fs f m,
+  load_all valid srcs = Some fs -> In f fs ->
+  Match.matches re f m = Match.f_enabled f && Match.criteria_hold re f m.
+Proof. exact VerdictProofs.loaded_verdict_is_criteria. Qed.
+
+(* A message WITHOUT extended header has no APID, no CTID, no message type and no log level: a filter with such a
+   criterion -- literal or regular expression -- does not match it.  (So a positive ":APP" / "::CT.*" selection never
+   emits it and a negative one never removes it.) *)
+Theorem C14_no_ext_header_fails_id_type_level : forall valid re srcs fs f m,
+  load_all valid srcs = Some fs -> In f fs ->
+  Match.m_ext m = None -> Match.needs_ext_header f = true -> Match.matches re f m = false.
+Proof. exact VerdictProofs.loaded_verdict_no_ext. Qed.
+
+(* The link to the selection theorems above: in an elaborated case (Exec/C14.v [elab]: what the correspondence runs)
+   the verdict [fmatches] that [selected] / C14_selected_meaning read for the k-th filter of the vector is exactly that
+   model verdict of the k-th loaded filter on the message's header parts; kind and enabled flag are the loaded ones. *)
+Theorem C14_selection_reads_filter_criteria : forall valid re srcs fs k (sm : src_msg),
+  load_all valid srcs = Some fs -> (k < length fs)%nat ->
+  let x := mk_cmsg (elab_msg (verdicts re fs) sm) in
+  let f := nth k (mk_filters 0 (map kind_enabled fs)) (mkFlt Positive false 0) in
+  let g := nth k fs (Match.filter_new 0) in
+  let m := msg_of_hdr (snd sm) in
+  f_kind f = mk_kind (Match.f_kind g) /\
+  f_enabled f = Match.f_enabled g /\
+  fmatches f x = Match.matches re g m /\
+  fmatches f x = Match.f_enabled g && Match.criteria_hold re g m /\
+  (snd (snd sm) = None -> Match.needs_ext_header g = true -> fmatches f x = false).
+Proof. exact ElabProofs.elaborated_verdict. Qed.
+
+(* non-vacuity: a DLF negative filter with the CTID expression `C3` (flag enableregexp_Context = 1) followed by
+   `--eac=::CT01|CT02`; engine answers for the ids CT01 and C3.  A message without extended header matches neither,
+   one with CTID CT01 the second, one with CTID C3 the first. *)
+Definition nv_srcs : list fsrc :=
+  [FsDlf [(0, [49]); (1, [49]); (9, [49]); (7, [49]); (8, [67; 51])];
+   FsEac [58; 58; 67; 84; 48; 49; 124; 67; 84; 48; 50]].
+Definition nv_vt : vtable := [([67; 51], true); ([67; 84; 48; 49; 124; 67; 84; 48; 50], true)].
+Definition nv_rt : rtable :=
+  [([67; 51], [67; 51; 0; 0], true); ([67; 51], [67; 84; 48; 49], false);
+   ([67; 84; 48; 49; 124; 67; 84; 48; 50], [67; 84; 48; 49], true);
+   ([67; 84; 48; 49; 124; 67; 84; 48; 50], [67; 51; 0; 0], false)].
+Example C14_filter_verdict_nonvacuous :
+  exists fs, load_all (valid_of nv_vt) nv_srcs = Some fs /\
+    map kind_enabled fs = [(1, true); (0, true)] /\
+    map Match.needs_ext_header fs = [true; true] /\
+    verdicts (re_of nv_rt) fs ([69; 67; 48; 49], None) = [false; false] /\
+    verdicts (re_of nv_rt) fs ([69; 67; 48; 49], Some (64, [65; 80; 48; 49], [67; 84; 48; 49])) = [false; true] /\
+    verdicts (re_of nv_rt) fs ([69; 67; 48; 49], Some (64, [65; 80; 48; 49], [67; 51])) = [true; false].
+Proof. eexists. split; [vm_compute; reflexivity|]. vm_compute. auto 10. Qed.
+
 Print Assumptions C14_convert_selects_exactly.
 Print Assumptions C14_no_selection_shows_input.
 Print Assumptions C14_written_file_is_selected.
@@ -256,3 +313,7 @@ Print Assumptions C14_merge_deterministic_without_cross_stream_ties.
 Print Assumptions C14_file_order_irrelevant_no_ties.
 Print Assumptions C14_unordered_streams_depend_on_arg_order.
 Print Assumptions C14_nonvacuous.
+Print Assumptions C14_filter_verdict_is_criteria.
+Print Assumptions C14_no_ext_header_fails_id_type_level.
+Print Assumptions C14_selection_reads_filter_criteria.
+Print Assumptions C14_filter_verdict_nonvacuous.
